@@ -11,6 +11,7 @@ declare -A EXTRA=(
   [C04-3]="C01 C02" [C05-3]="C11 C03" [C06-3]="C11 C01" [C07-4]="C01" [C08-3]="C10" [C08-4]="C09" [C11-3]="C03"
   [C15-4]="C01 C02" [C18-3]="C01" [C18-4]="C02"
   [C13-4]="C11 C03" [C17-3]="C10 C01 C11" [C17-4]="C10 C01" [C20-3]="C02" [C20-4]="C07"
+  [C02-5]="C01 C11" [C02-6]="C14" [C09-5]="C03" [C09-6]="C08"
   [C05-1]="C04" [C06-1]="C04" [C04-2]="C05 C06" [C01-2]="C10 C17" [C10-1]="C01" [C17-2]="C01"
 )
 OUT=seeded/REGRESSION.txt
